@@ -205,6 +205,10 @@ def parse_kind(text, classes=(), enums=()):
             'Name': KName, 'Vec': KVec3, 'Ext': KExtReal}
     if text in prim:
         return prim[text]
+    if text == 'Path':
+        k = KTuple([KName, KName])
+        k.name = 'Path'
+        return k
     if text in enums:
         return KEnum(text)
     if '[' not in text:
@@ -356,6 +360,17 @@ class ExcVal:
 
     def __repr__(self):
         return 'ExcVal(%s)' % self.etype
+
+
+class CaughtExc:
+    """An exception object bound by `except E as name` (a value, not a raise outcome)."""
+    __slots__ = ('exc',)
+
+    def __init__(self, exc):
+        self.exc = exc
+
+    def __repr__(self):
+        return 'CaughtExc(%s)' % self.exc.etype
 
 
 _fresh_counter = [0]
